@@ -211,6 +211,11 @@ EXTRA = [
     ("C12", "revert-negative-target-fix", "pdpy11/compiler.py",
      'new_addr_value = get_as_int(state, "link address", state["insn"], insn.value, bitness=16, unsigned=True)',
      'new_addr_value = get_as_int(state, "link address", state["insn"], insn.value, bitness=16, unsigned=False)'),
+    ("C02", "revert-include-size-fix", "pdpy11/metacommands.py", "@metacommand\ndef include(state, included_file_path: str):", "@metacommand(size=0)\ndef include(state, included_file_path: str):"),
+    ("C12", "revert-included-base-expansion-fix", "pdpy11/deferred.py",
+     "                    if isinstance(key1, Promise) and key1.settled:\n", "                    if False:\n"),
+    ("C12", "revert-promise-of-promise-fix", "pdpy11/deferred.py",
+     "and not isinstance(key, (LinearPolynomial, Promise)):", "and not isinstance(key, LinearPolynomial):"),
     ("C12", "revert-promise-estimate-fix", "pdpy11/deferred.py",
      "            if not isinstance(value, BaseDeferred):\n                return value\n        # Not known yet",
      "            return self.value\n        # Not known yet"),
